@@ -617,7 +617,7 @@ keyword(struct token *tok)
 		mid = (low + high) / 2;
 		cmp = strcmp(tok->lit, keywords[mid].name);
 		if (cmp == 0) {
-			free(tok->lit);
+			/* do not free tok->lit: the token of a macro body shares it */
 			tok->kind = keywords[mid].value;
 			tok->lit = NULL;
 			break;
